@@ -645,6 +645,13 @@ func (r *FnRun) applyContract(st *State, c *Contract, calleeName string, sig *ty
 		g := env.EvalBool(cl.E)
 		r.oblige(st, "pre", fmt.Sprintf("%s.%d", calleeName, i+1), g, pos, what+"  requires "+cl.Text, cl.Tags)
 	}
+	if c.Measure != nil && r.root.c != nil && r.root.c.Measure != nil && r.root.measure != nil && r.depth == 0 {
+		// recursion: the callee's measure is strictly below the caller's measure at entry, and not negative
+		mc := env.coerceConst(env.Eval(c.Measure), types.Typ[types.Int])
+		m := r.toInt64(r.scalar(mc.V), mc.T)
+		tb := r.tb()
+		r.oblige(st, "rec-dec", shortName(calleeName), tb.And(tb.SLe(tb.BVI(64, 0), m), tb.SLt(m, r.root.measure)), pos, what+"  measure "+c.Measure.String()+" decreases", []string{"C06", "C15"})
+	}
 	post := pre.Clone()
 	mods := r.resolveMods(c, env)
 	r.applyHavoc(post, pre, mods)
